@@ -312,3 +312,90 @@ def _jint(sx, args, kwargs, st, node):
     from pyvc import builtins as B
     j = B.J()
     return [R(st, Val(V.Int, j["int"](j["get"](args[0].term, args[1].term))))]
+
+
+# ---- Subscription.run_query (SQL): stored results then exactly one EOSE sentinel; output validator on every event ----------
+from .base import QueueModel, CLIENT, OUTPUT_OK  # noqa: E402
+
+REG.classes["SQLSub"] = {
+    "log": lambda sx, st, name: LOGGER, "sub_id": V.Str, "client_id": CLIENT, "auth_token": V.Opt(TOKEN), "filters": V.Opaque("Filters"),
+    "query": V.Opaque("SQLText"), "queue": lambda sx, st, name: Conc(CountingQueue()), "storage": V.ObjT("SQLSubStorage"),
+    "__frozen__": ("sub_id", "client_id", "queue", "storage", "query", "filters"),
+}
+REG.classes["SQLSubStorage"] = {"check_output": V.Opt(V.Opaque("OutputValidator")), "__frozen__": ("check_output",)}
+
+
+class CountingQueue(QueueModel):
+    """queue.put((sub_id, event|None)): counts events / sentinels; C14 typestate: an event is only put after the configured
+    output validator accepted it"""
+
+    def __pyvc_getattr__(self, sx, attr, st, node):
+        if attr != "put":
+            raise Unsupported("queue.%s" % attr, node)
+
+        def put(sx2, a, k, s, n):
+            item = a[0]
+            if isinstance(item, Val) and isinstance(item.ty, V.Tuple):
+                item = Conc(tuple(Val(t, item.ty.field(item.term, i)) for i, t in enumerate(item.ty.items)))
+            sid, ev = item.v
+            is_sentinel = isinstance(ev, Val) and isinstance(ev.ty, V._None)
+            sx2.oblige(s, "%s/put:under-own-subscription-id" % sx2.cur_func, sx2.eq(sid, s.ghost["own_sub_id"], s), "typestate", n, props=["C13"])
+            if is_sentinel:
+                s.ghost["n_eose_put"] = Val(V.Int, s.ghost["n_eose_put"].term + 1)
+            else:
+                co = s.ghost["check_output"]
+                t = co.ty
+                allowed = z3.Or(t.is_none(co.term), OUTPUT_OK(t.get(co.term), ev.term))
+                sx2.oblige(s, "%s/put:event-passed-the-output-validator" % sx2.cur_func, allowed, "typestate", n, props=["C14"])
+                sx2.oblige(s, "%s/put:no-event-after-eose" % sx2.cur_func, s.ghost["n_eose_put"].term == 0, "typestate", n, props=["C13"])
+                s.ghost["n_event_put"] = Val(V.Int, s.ghost["n_event_put"].term + 1)
+            return [R(s, NONE)]
+        return [R(st, Func(put, "queue.put"))]
+
+
+class StoredResults:
+    """self.storage.run_query(query, if_long=...) (own contract: DBStorage.run_query): an async generator over stored events;
+    it swallows its own exceptions (logs them) and ends"""
+
+    def __pyvc_iter__(self, sx, st, node):
+        return ("opaque", self)
+
+    def next(self, sx, st, k):
+        return [R(st, sx.fresh(EVENT, "stored", st))]
+
+
+@REG.method("SQLSubStorage", "run_query", frame=[])
+def _storage_run_query(sx, args, kwargs, st, node):
+    return [R(st, Conc(StoredResults()))]
+
+
+@REG.hook("call", repr(V.Opaque("OutputValidator")))
+def _call_output_validator2(sx, f, args, kwargs, st, node):
+    """the configured output validator (ASSUMED arbitrary predicate; may raise)"""
+    return [R(st, Val(V.Bool, OUTPUT_OK(f.term, args[0].term))), R(st.fork(), None, Exc("Exception", exact=False))]
+
+
+def ghost_runq(sx, st):
+    st.ghost["n_eose_put"] = V.mk_int(0)
+    st.ghost["n_event_put"] = V.mk_int(0)
+
+
+def setup_runq(sx, st, params):
+    so = st.getcell(params["self"].cell)
+    st.ghost["own_sub_id"] = so["sub_id"]
+    st.ghost["check_output"] = st.getcell(so["storage"].cell)["check_output"]
+
+
+run_query_sql = REG.unit(Unit(
+    P, "Subscription.run_query",
+    Contract("Subscription.run_query", {"self": V.ObjT("SQLSub")},
+             ensures=[("exactly-one-eose-sentinel-at-the-end", "ghost('n_eose_put') == 1")],
+             # C13: the sentinel must be sent on every path, also when the output validator fails
+             raises={}),
+    loops={1: LoopSpec("validated", index="_a", invariants=[("no-eose-yet", "ghost('n_eose_put') == 0")]),
+           2: LoopSpec("plain", index="_b", invariants=[("no-eose-yet", "ghost('n_eose_put') == 0")])},
+    props=["C13", "C14"], ghost_init=ghost_runq, setup=setup_runq,
+    canaries=[("never-finishes", "False")],
+))
+run_query_sql.ghost_havoc = lambda sx, body, st: [st.ghost.__setitem__(g, sx.fresh(V.Int, "g_" + g, st)) for g in ("n_eose_put", "n_event_put")]
+run_query_sql.obligation_props = [("put:event-passed", ["C14"]), ("put:", ["C13"]), ("post:", ["C13"]), ("exc:", ["C13"]), ("inv:", ["C13"])]
